@@ -1,12 +1,17 @@
 package c20
 
 import (
+	"bufio"
 	"encoding/json"
+	"errors"
 	"fmt"
+	"io"
+	"net"
 	"net/http"
 	"net/http/httptest"
 	"slices"
 	"strconv"
+	"strings"
 
 	"github.com/AdguardTeam/golibs/netutil/httputil"
 
@@ -301,6 +306,7 @@ func recordChain(args []string) error {
 // ---------------------------------------------------------------- CodeRecorderResponseWriter
 
 type crVec struct {
+	Rets    []string `json:"rets"` // results of the Hijack calls: ok, fail, unsupported
 	Ops     []op     `json:"ops"`
 	Code    int      `json:"code"`
 	Allowed []int    `json:"allowed"`
@@ -308,7 +314,8 @@ type crVec struct {
 	Under   [][]call `json:"under"`
 }
 
-// plainWriter is an underlying writer that records the calls it receives.
+// plainWriter is an underlying writer that records the calls it receives; it
+// implements none of the optional interfaces.
 type plainWriter struct {
 	hdr   http.Header
 	calls []call
@@ -319,6 +326,52 @@ func (p *plainWriter) WriteHeader(c int)   { p.calls = append(p.calls, call{Op: 
 func (p *plainWriter) Write(b []byte) (int, error) {
 	p.calls = append(p.calls, call{Op: "w"})
 	return len(b), nil
+}
+
+// richWriter is an underlying writer that is also an http.Hijacker (scripted:
+// mode 1 succeeds, 2 fails) and an http.Flusher.
+type richWriter struct {
+	plainWriter
+	mode int
+	conn net.Conn
+}
+
+func (r *richWriter) Flush() { r.calls = append(r.calls, call{Op: "fl"}) }
+func (r *richWriter) Hijack() (net.Conn, *bufio.ReadWriter, error) {
+	r.calls = append(r.calls, call{Op: "hj", C: r.mode})
+	if r.mode != 1 {
+		return nil, nil, errHijack
+	}
+	return r.conn, nil, nil
+}
+
+// wrapperInterfaces lists, by type assertion at run time, the optional
+// interfaces the wrapper itself exposes.
+func wrapperInterfaces() string {
+	var w http.ResponseWriter = httputil.NewCodeRecorderResponseWriter(&plainWriter{hdr: http.Header{}})
+	out := []string{}
+	if _, ok := w.(httputil.Wrapper); ok {
+		out = append(out, "Unwrap")
+	}
+	if _, ok := w.(http.Hijacker); ok {
+		out = append(out, "Hijacker")
+	}
+	if _, ok := w.(http.Flusher); ok {
+		out = append(out, "Flusher")
+	}
+	if _, ok := w.(interface{ FlushError() error }); ok {
+		out = append(out, "FlushError")
+	}
+	if _, ok := w.(http.Pusher); ok {
+		out = append(out, "Pusher")
+	}
+	if _, ok := w.(io.ReaderFrom); ok {
+		out = append(out, "ReaderFrom")
+	}
+	if _, ok := w.(io.StringWriter); ok {
+		out = append(out, "StringWriter")
+	}
+	return strings.Join(out, ",")
 }
 
 func replayCodeRec(args []string) error {
@@ -345,7 +398,17 @@ func replayCodeRec(args []string) error {
 		}
 		key := "CodeRecorderResponseWriter " + crKey(v.Ops)
 		for _, viaReset := range []bool{false, true} {
-			under := []*plainWriter{{hdr: http.Header{}}, {hdr: http.Header{}}}
+			c1, c2 := net.Pipe()
+			rich := &richWriter{plainWriter: plainWriter{hdr: http.Header{}}, conn: c1}
+			plain := &plainWriter{hdr: http.Header{}}
+			under := []http.ResponseWriter{rich, plain}
+			callsOf := func(b int) []call {
+				if b == 0 {
+					return rich.calls
+				}
+				return plain.calls
+			}
+			rets := []string{}
 			var w *httputil.CodeRecorderResponseWriter
 			var code int
 			var unwrapped http.ResponseWriter
@@ -370,19 +433,49 @@ func replayCodeRec(args []string) error {
 						w.SetImplicitSuccess()
 					case "reset":
 						w.Reset(under[o.C-1])
+					case "hj":
+						rich.mode = o.C
+						var conn net.Conn
+						var err error
+						if viaReset { // through the wrapper's own method / through a ResponseController
+							conn, _, err = w.Hijack()
+						} else {
+							conn, _, err = http.NewResponseController(w).Hijack()
+						}
+						switch {
+						case err == nil && conn == net.Conn(c1):
+							rets = append(rets, "ok")
+						case err == nil:
+							rets = append(rets, "ok with a foreign connection")
+						case errors.Is(err, http.ErrNotSupported):
+							rets = append(rets, "unsupported")
+						case errors.Is(err, errHijack):
+							rets = append(rets, "fail")
+						default:
+							rets = append(rets, "error: "+err.Error())
+						}
+					case "fl":
+						_ = http.NewResponseController(w).Flush() // ErrNotSupported on the bare writer
 					}
 				}
 				code = w.Code()
 				unwrapped = w.Unwrap()
 				w.Header().Set("X-K", "v")
-				hdrOK = under[v.Base-1].hdr.Get("X-K") == "v"
+				hdrOK = under[v.Base-1].Header().Get("X-K") == "v"
 			})
+			c1.Close()
+			c2.Close()
+			if v.Rets == nil {
+				v.Rets = []string{}
+			}
 			switch {
 			case panicked:
 				res.Mismatch(key, fmt.Sprintf("panic: %v", pv), v)
 			case !slices.Contains(v.Allowed, code):
 				res.Mismatch(key, fmt.Sprintf("Code() = %d, the documentation allows %v", code, v.Allowed), v)
-			case unwrapped != http.ResponseWriter(under[v.Base-1]):
+			case !slices.Equal(rets, v.Rets):
+				res.Mismatch(key, fmt.Sprintf("Hijack results %v, want %v", rets, v.Rets), v)
+			case unwrapped != under[v.Base-1]:
 				res.Mismatch(key, "Unwrap() is not the writer given last", v)
 			case !hdrOK:
 				res.Mismatch(key, "Header() is not the underlying writer's header", v)
@@ -392,8 +485,8 @@ func replayCodeRec(args []string) error {
 					if want == nil {
 						want = []call{}
 					}
-					if !slices.Equal(append([]call{}, under[b].calls...), want) {
-						res.Mismatch(key, fmt.Sprintf("underlying writer %d received %v, want %v", b+1, under[b].calls, want), v)
+					if !slices.Equal(append([]call{}, callsOf(b)...), want) {
+						res.Mismatch(key, fmt.Sprintf("underlying writer %d received %v, want %v", b+1, callsOf(b), want), v)
 					}
 				}
 				if code != v.Code {
@@ -406,7 +499,8 @@ func replayCodeRec(args []string) error {
 	if err != nil {
 		return err
 	}
-	return res.Close(map[string]any{"replayed": n, "distinct_nontrivial": dd.N(), "code_policy_differs": policy})
+	return res.Close(map[string]any{"replayed": n, "distinct_nontrivial": dd.N(), "code_policy_differs": policy,
+		"wrapper_interfaces": wrapperInterfaces()})
 }
 
 func crKey(ops []op) string {
@@ -421,6 +515,10 @@ func crKey(ops []op) string {
 			s += "SetImplicitSuccess;"
 		case "reset":
 			s += fmt.Sprintf("Reset(w%d);", o.C)
+		case "hj":
+			s += fmt.Sprintf("Hijack[%s];", []string{"", "succeeds", "fails"}[o.C])
+		case "fl":
+			s += "Flush;"
 		}
 	}
 	return s + "Code()"
